@@ -265,6 +265,8 @@ Verdict(r) ==
     [] r.e = "sc.get" -> VScat(r)
     [] r.e = "mark" -> VMark(r)
     [] r.e = "Out" -> VOut(r)
+    \* a caller inside a parallel region: two guarded calls per thread of the team (beyond-property rule GuardOK)
+    [] r.e = "Guard" -> IF r.team >= 1 /\ GuardOK(r.team, 2 * r.team, r.refused, r.accepted) THEN "ok" ELSE "guard-inside-parallel-region"
     [] r.e = "EndRun" -> VEnd(r)
     [] r.e = "Abort" -> "abort"          \* "without ... crashes"
     [] r.e = "Hang" -> "hang"            \* "... or deadlock"
